@@ -272,7 +272,9 @@ func TestCheck(t *testing.T) {
 	}
 	bound := 2
 	if env.Thorough() {
-		bound = 3
+		bound = 4
+		list = append(list, hx.Scenario{Name: "three writes spread over four minutes, uploads may fail", Make: scen{name: "x", writer: []string{"sleep:10s", "put", "sleep:80s", "put", "sleep:100s", "put"}, outcomes: []string{"ok", "fail"}, horizon: 560 * time.Second}.harness()},
+			hx.Scenario{Name: "cancellation at any moment, two writes, uploads may fail", Make: scen{name: "y", writer: []string{"put", "sleep:70s", "put"}, outcomes: []string{"ok", "fail"}, cancelAt: true, horizon: 330 * time.Second}.harness()})
 	}
 	hx.ExploreScenarios(t, env, rep, "backup-loop-virtual-time", list, bound, true, func(sc, msg string) string {
 		first := msg
